@@ -65,9 +65,12 @@ Definition m_concat (d : dty) (mo : Z) (xs : list (Z * list Z)) : res tarr :=
 
 (* ---------------------------------------------------------------- _coo/common.stack: the rows keep
    their values; np.stack promotes them with the new intp row *)
-Definition m_stack_dtype (d : dty) : res dty :=
-  match promote d (DInt s_stack_new_row) with
-  | DFloat => Raise IndexError       (* float coordinates are refused when the constructor sorts *)
+Definition m_stack_dtype (d : dty) : dty := promote d (DInt s_stack_new_row).
+(* sorted=(axis == 0): for axis 0 the constructor does not sort, and float64 coordinates go through
+   unnoticed (the result is a COO whose coordinates are floats); otherwise the sort refuses them *)
+Definition m_stack (d : dty) (axis0 : bool) : res dty :=
+  match m_stack_dtype d with
+  | DFloat => if axis0 then Ok DFloat else Raise TypeError
   | p => Ok p
   end.
 
